@@ -73,6 +73,8 @@ T = [
 ("C07","fix: MkdirAll and Mkdir on a volume that does not exist","Windows-typed MemFS.MkdirAll on a volume that was not added dereferenced a nil root; Windows-typed OrefaFS Mkdir, MkdirAll and MkdirTemp on another volume walked up past the volume name and panicked in SplitAbs (were KF-C07-006 and KF-C07-007)"),
 ("C17","fix: the default identity manager of a MemFS","a Windows-typed MemFS built on a Linux host without an identity manager got a Linux-typed MemIdm: TempDir() and the administrator's home directory did not exist, CreateTemp(\"\", p) and MkdirTemp(\"\", p) failed where the Linux-typed twin succeeds"),
 ("C17","fix: Abs joined a rooted Windows path","on a Windows-typed file system a rooted path without volume (\\Users, as avfs.HomeDir(vfs, \"\") returns it) was joined to the current directory instead of the root of the current volume: Stat of it failed from any directory but the root, the Linux-typed twin succeeds"),
+("C11","fix: a view returned by Sub of a Windows-typed MemFS","a Sub view of a Windows-typed MemFS was not confined: view.Stat(`C:\\data`) succeeded on a view rooted at `C:\\data\\view`, files outside the directory and on other volumes were read and written through the view (the volume table was shared with the parent and every path resolved from the parent's volume root)"),
+("C11","fix: searchNode did not check search permission","a MemFS view never checked search permission on its own root directory: a non-administrator user of Sub(dir) read and wrote below dir although the parent refuses the same path prefixed with dir with EACCES; a refused RemoveAll through such a view had already emptied files (were KF-C11-001 and KF-C11-002)"),
 ]
 log = subprocess.check_output(['git','-C','/repo','log','--format=%h %s','adfd2e3..HEAD']).decode().strip().split('\n')
 subj = {}
